@@ -201,7 +201,10 @@ def extract_tree(spec):
     from spox._public import _temporary_renames
     from spox._scope import ScopeError
 
-    inputs, outputs = L.realise(spec)
+    try:
+        inputs, outputs = L.realise(spec)
+    except Exception as e:  # noqa: BLE001 - the program itself is rejected at construction time
+        return None, ("pre-err", type(e).__name__)
     keep = []  # keep objects alive so that id() stays unique
     with _temporary_renames(**inputs):
         graph = _graph.results(**outputs)
@@ -376,6 +379,8 @@ def classify(bad):
         if k in kinds:
             d = next(d for kk, d in bad if kk == k)
             if k == "walker":
+                if d.startswith("function "):
+                    return "walker-in-function:" + d.split(": ", 1)[1].split(":")[0]
                 return "walker:" + d.split(":")[0]
             return k
     return "invalid"
